@@ -58,6 +58,14 @@ class Tracer:
     def emit(self, d):
         if not self.muted:
             self.ev.append(d)
+            # shadow of the list the model holds after this event (token identities): lets the fix wrapper notice a change
+            # that no observed action made
+            if d.get("e") == "Fix":
+                self.shadow = list(d["afterU"])
+            elif d.get("e") in ("Parse", "Norm", "FixEnd", "Unobserved") and "toks" in d:
+                self.shadow = [t[0] for t in d["toks"]]
+            elif d.get("e") == "Round":
+                self.shadow = None
 
     def rid(self, oRule):
         return self.interner.get("R:" + oRule.unique_id)
@@ -372,6 +380,16 @@ def wrap_rule(T, oRule):
     def fix_wrapper(oFile, dFixOnly=None, *a, **k):
         if T.muted or T.cur is not None:
             return orig_fix(oFile, dFixOnly, *a, **k)
+        # the list as it is now must be the list the model holds: a difference was made by something that is not an observed
+        # action (a rule's update(), the phase-1 clean-up) - reported as C18_NoUnobservedChange, the model is re-synchronised
+        sh = getattr(T, "shadow", None)
+        if sh is not None and oRule.fixable:
+            try:
+                now = T.us(oFile.lAllObjects)
+                if now != sh:
+                    T.emit({"e": "Unobserved", "before": T.rid(oRule), "toks": T.abs_list(oFile.lAllObjects)})
+            except Exception:
+                pass
         T.cur = {"rule": oRule, "file": oFile, "L0": None, "upd": None, "reported": [], "kept": []}
         cur = T.cur
         pre_list_digest = cheap_digest(oFile.lAllObjects)
